@@ -349,12 +349,12 @@ class Model:
                     return True
         return False
 
-    def add_unit(self, sect, toks, create=True):
+    def add_unit(self, sect, toks, create=True, name=None):
         if sect not in self.sections:
             self.sections[sect] = []
             self.section_order.append(sect)
         self.counter += 1
-        u = Unit(f"new{self.counter}", toks)
+        u = Unit(name or f"new{self.counter}", toks)
         u.new = True
         self.sections[sect].append(u)
         self.new_units.append((sect, u))
